@@ -402,11 +402,13 @@ class Topology(ABC):
         ns = self._get_ns_by_name(name=name)
         # if this service peers with other services, remove their service ports facing us as well,
         # so they are not left without a peer
-        for i in ns.interface_list:
-            peers = i.get_peers(itype=InterfaceType.ServicePort)
-            if peers:
-                for peer in peers:
-                    self.graph_model.remove_cp_and_links(node_id=peer.node_id)
+        for pi in ns.interface_list:
+            # the interface and any of its sub-interfaces
+            for i in (pi, *pi.interface_list):
+                peers = i.get_peers(itype=InterfaceType.ServicePort)
+                if peers:
+                    for peer in peers:
+                        self.graph_model.remove_cp_and_links(node_id=peer.node_id)
         self.graph_model.remove_ns_with_cps_and_links(node_id=ns.node_id)
 
     def _get_node_by_name(self, name: str) -> Node:
